@@ -1,37 +1,100 @@
 (** C08 — property theorems only; each closed by [exact] of a lemma proved in Tree/*.v.
-    Model: Tree/TreeDefs.v (BaseBlockTree flag algebra, kinds ALT and POW).  [Inv_flags] = proper tree + heights +
-    "every child of a failed block carries FAILED_CHILD" + "live blocks are at least VALID_TREE".  (The converse
-    "FAILED_CHILD only below a failed block" is NOT an invariant of the code: removeSubtree drops FAILED_POP of the
-    removed blocks and keeps the FAILED_CHILD of their descendants.)
-    Not proved here (named in META of props/C08.py): the tip-set / active-tip part of inv_reval_id, the
-    descendant-closure form of invalidate_exact (given pointwise below), best_chain_never_invalid. *)
+    Model: Tree/TreeDefs.v (BaseBlockTree flag algebra, kinds ALT and POW).
+    [Inv_flags] = proper tree + heights follow parents + "every child of a failed block carries FAILED_CHILD" +
+    "live blocks are at least VALID_TREE, removed blocks do not carry FAILED_POP".
+    (The converse "FAILED_CHILD only below a failed block" is NOT an invariant of the code: removeSubtree drops
+    FAILED_POP of the removed blocks and keeps the FAILED_CHILD of their descendants; [back_in l b] states the absence
+    of such stale flags inside subtree(b).)   [sub l b p] = p is b or a descendant of b.
+    _partial (named in META of props/C08.py): restoration of the TIP SET by inv+reval (needs the tips conjunct of Inv_tree). *)
 From Coq Require Import ZArith NArith List Bool.
-From VB Require Import Tree.TreeDefs Tree.TreeInv Tree.TreePass Tree.TreeProofs.
+From VB Require Import Tree.TreeDefs Tree.TreeInv Tree.TreePass Tree.TreeProofs Tree.TreeExact Tree.TreeRestore
+  Tree.TreeMono Tree.TreeSteps Tree.TreeChain.
 Import ListNotations.
 
-(* invalidateSubtree, every early exit included, re-establishes the flag invariant: afterwards every child of a failed
-   block carries FAILED_CHILD - so everything below the invalidated block is failed *)
-Theorem C08_invalidate_keeps_flag_invariant :
-  forall s id r ord s', Inv_flags s -> invalidate s id r ord = Done s' -> Inv_flags s'.
-Proof. exact invalidate_inv. Qed.
-Print Assumptions C08_invalidate_keeps_flag_invariant.
+(* invalidate_exact: outside subtree(b) no failure flag changes; b gets the reason and nothing else; every proper
+   descendant keeps its own flags and carries FAILED_CHILD afterwards. All early exits included, both trees. *)
+Theorem C08_invalidate_exact :
+  forall s id r ord s', Inv_flags s -> invalidate s id r ord = Done s' ->
+  forall p y, find_blk p (blocks s) = Some y ->
+  exists y', find_blk p (blocks s') = Some y' /\ skel y' = skel y /\
+    (sub (blocks s) id p = false -> ffl (bst y') = ffl (bst y)) /\
+    (p = id -> has_reason r (bst y') = true /\ fchild (bst y') = fchild (bst y) /\
+               forall r', r' <> r -> has_reason r' (bst y') = has_reason r' (bst y)) /\
+    (sub (blocks s) id p = true -> p <> id ->
+       fblock (bst y') = fblock (bst y) /\ fpop (bst y') = fpop (bst y) /\ fchild (bst y') = true).
+Proof. exact invalidate_exact. Qed.
+Print Assumptions C08_invalidate_exact.
 
-(* revalidateSubtree (early exits: flag absent / other failure flags present) re-establishes it as well:
-   descendants that are invalid for another reason stay invalid, the others lose FAILED_CHILD *)
-Theorem C08_revalidate_keeps_flag_invariant :
-  forall s id r ord s', Inv_flags s -> revalidate s id r ord = Done s' -> Inv_flags s'.
-Proof. exact revalidate_inv. Qed.
-Print Assumptions C08_revalidate_keeps_flag_invariant.
+(* revalidate_exact: only b loses the reason; own flags of every other block and FAILED_CHILD outside subtree(b) are
+   unchanged (early exits: reason absent = no-op; other failure flags present = only the flag of b) *)
+Theorem C08_revalidate_exact :
+  forall s id r x, Inv_flags s -> find_blk id (blocks s) = Some x -> has_reason r (bst x) = true ->
+  forall p y, find_blk p (blocks s) = Some y ->
+  exists y2, find_blk p (blocks (revalidate_core s id r)) = Some y2 /\ skel y2 = skel y /\
+    (p <> id -> fblock (bst y2) = fblock (bst y) /\ fpop (bst y2) = fpop (bst y)) /\
+    (p = id -> has_reason r (bst y2) = false /\ fchild (bst y2) = fchild (bst y) /\
+               forall r', r' <> r -> has_reason r' (bst y2) = has_reason r' (bst y)) /\
+    (sub (blocks s) id p = false -> fchild (bst y2) = fchild (bst y)).
+Proof. exact revalidate_core_exact. Qed.
+Print Assumptions C08_revalidate_exact.
 
-(* invalidate_exact / revalidate_exact, pointwise form: the traversal rewrites exactly the blocks whose parent is the
-   target or a rewritten block below which the traversal continued, and it rewrites only FAILED_CHILD *)
-Theorem C08_traversal_exact_partial :
+Theorem C08_revalidate_blocks :
+  forall s id r ord s2 x, find_blk id (blocks s) = Some x -> has_reason r (bst x) = true ->
+  revalidate s id r ord = Done s2 -> blocks s2 = blocks (revalidate_core s id r).
+Proof. exact revalidate_blocks. Qed.
+Print Assumptions C08_revalidate_blocks.
+
+(* ... and inside subtree(b) FAILED_CHILD is afterwards carried exactly below failed blocks: descendants that are
+   invalid for another reason (and everything below them) stay invalid, all others are valid again *)
+Theorem C08_revalidate_descendants :
+  forall s id r x, Inv_flags s -> find_blk id (blocks s) = Some x -> has_reason r (bst x) = true ->
+  all_marked (blocks s) id -> back_in (blocks (revalidate_core s id r)) id.
+Proof. exact revalidate_core_back_in. Qed.
+Print Assumptions C08_revalidate_descendants.
+
+(* inv_reval_id (failure flags): revalidate (invalidate s b r) b r gives EVERY block its three failure flags back *)
+Theorem C08_inv_reval_id_flags :
+  forall s id r o1 o2 s1 s2 x,
+  Inv_flags s -> find_blk id (blocks s) = Some x -> has_reason r (bst x) = false ->
+  back_in (blocks s) id ->
+  invalidate s id r o1 = Done s1 -> revalidate s1 id r o2 = Done s2 ->
+  forall p y, find_blk p (blocks s) = Some y ->
+    exists y2, find_blk p (blocks s2) = Some y2 /\ skel y2 = skel y /\ ffl (bst y2) = ffl (bst y).
+Proof. exact inv_reval_id_flags. Qed.
+Print Assumptions C08_inv_reval_id_flags.
+
+(* the algebra behind nested invalidations / revalidations: FAILED_CHILD is a function of the own flags
+   (two states with the same own flags, the same flags outside subtree(t) and no stale flag inside agree everywhere) *)
+Theorem C08_flags_determined_by_own_flags :
+  forall t l l2, wf l -> same_skel l l2 -> fl_ok l -> fl_ok l2 -> back_in l t -> back_in l2 t ->
+  (forall p y y2, find_blk p l = Some y -> find_blk p l2 = Some y2 ->
+     fblock (bst y) = fblock (bst y2) /\ fpop (bst y) = fpop (bst y2)) ->
+  (forall p y y2, find_blk p l = Some y -> find_blk p l2 = Some y2 -> sub l t p = false \/ p = t ->
+     fchild (bst y) = fchild (bst y2)) ->
+  forall n p y y2, (length (path l p) <= n)%nat -> find_blk p l = Some y -> find_blk p l2 = Some y2 ->
+    fchild (bst y) = fchild (bst y2).
+Proof. exact ffl_unique. Qed.
+Print Assumptions C08_flags_determined_by_own_flags.
+
+(* the traversal of both operations, pointwise and in descendant form *)
+Theorem C08_traversal_pointwise :
   forall f stop t l, wf l -> forall p y, find_blk p l = Some y ->
     find_blk p (fst (gpass f stop t l)) =
       Some (if vis (snd (gpass f stop t l)) y then with_st y (f (bst y)) else y)
     /\ memN p (snd (gpass f stop t l)) = (p =? t)%N || (vis (snd (gpass f stop t l)) y && negb (stop (bst y))).
 Proof. exact gpass_find. Qed.
-Print Assumptions C08_traversal_exact_partial.
+Print Assumptions C08_traversal_pointwise.
+
+Theorem C08_traversal_exact :
+  forall v stop t l, wf l -> forall p y, find_blk p l = Some y ->
+  exists y', find_blk p (fst (gpass (set_fchild v) stop t l)) = Some y' /\
+    (sub l t p = false \/ p = t -> y' = y) /\
+    skel y' = skel y /\ fblock (bst y') = fblock (bst y) /\ fpop (bst y') = fpop (bst y) /\
+    level (bst y') = level (bst y) /\ deleted (bst y') = deleted (bst y) /\ active (bst y') = active (bst y) /\
+    haspl (bst y') = haspl (bst y) /\
+    (fchild (bst y') = fchild (bst y) \/ fchild (bst y') = v).
+Proof. exact gpass_exact. Qed.
+Print Assumptions C08_traversal_exact.
 
 Theorem C08_mark_pass_is_traversal :
   forall t l, fst (fst (mark_pass t l)) = fst (gpass (set_fchild true) failed t l) /\
@@ -45,17 +108,31 @@ Theorem C08_reval_pass_is_traversal :
 Proof. exact reval_pass_gpass. Qed.
 Print Assumptions C08_reval_pass_is_traversal.
 
-(* in every state of the invariant: the children of a failed block carry FAILED_CHILD *)
-Theorem C08_failed_parent_failed_child :
-  forall s, Inv_flags s -> forall p x q y,
-    find_blk p (blocks s) = Some x -> bparent x = Some q -> find_blk q (blocks s) = Some y ->
-    failed (bst y) = true -> fchild (bst x) = true.
-Proof. exact failed_parent_failed_child. Qed.
-Print Assumptions C08_failed_parent_failed_child.
+(* best_chain_never_invalid: after every prefix of every history (all operations, both trees) no block of the best
+   chain root..tip is failed ... *)
+Theorem C08_best_chain_never_invalid :
+  forall ops s, Inv_flags s -> tip_ok s ->
+  forall a z, In a (path (blocks (run s ops)) (tip (run s ops))) -> find_blk a (blocks (run s ops)) = Some z ->
+    failed (bst z) = false.
+Proof. exact best_chain_never_invalid. Qed.
+Print Assumptions C08_best_chain_never_invalid.
 
-(* nested_inv_reval (partial: invariant form): every interleaving of invalidations, revalidations, removals and state
-   switches, with both reasons, on both trees, keeps the flag invariant *)
-Theorem C08_nested_inv_reval_partial :
-  forall ops, Forall flag_op ops -> forall s, Inv_flags s -> Inv_flags (run s ops).
-Proof. exact run_inv_partial. Qed.
-Print Assumptions C08_nested_inv_reval_partial.
+(* ... and also in the intermediate state inside invalidateSubtree (after setState(prev), before the marking) *)
+Theorem C08_best_chain_inside_invalidate :
+  forall s id x pp s1, Inv_flags s -> tip_ok s ->
+  find_blk id (blocks s) = Some x -> bparent x = Some pp -> is_valid L_TREE (bst x) = true ->
+  (if on_chain s id then set_state_to s pp else Done s) = Done s1 ->
+  Inv_flags s1 /\ tip_ok s1.
+Proof. exact invalidate_intermediate_tip_ok. Qed.
+Print Assumptions C08_best_chain_inside_invalidate.
+
+(* where the active tip goes: setState(prev) puts it on the parent (ALT: it stays there; POW: updateTips re-determines) *)
+Theorem C08_set_state_to_tip : forall s to s1, set_state_to s to = Done s1 -> tip s1 = to.
+Proof. exact set_state_to_tip. Qed.
+Print Assumptions C08_set_state_to_tip.
+
+(* nested_inv_reval: arbitrary interleavings of ALL operations keep the invariant and a non-failed best-chain tip *)
+Theorem C08_nested_inv_reval :
+  forall ops s, Inv_flags s /\ tip_ok s -> Inv_flags (run s ops) /\ tip_ok (run s ops).
+Proof. exact run_good. Qed.
+Print Assumptions C08_nested_inv_reval.
